@@ -61,15 +61,15 @@ mut("c20_fm_not_restored", "C20", "library.py", _CTX_TAIL, '''        try:
 # ---------------------------------------------------------------- C12
 _DEFUZZ_CALL = '''        value = np.array(self.defuzzifier.defuzzify(self.fuzzy, self.minimum, self.maximum))
 
-        # previous value is the last element of the value at t
-        self.previous_value = np.take(self.value, -1).astype(float)
+        # previous value is the last element of the value at t (nan if the value at t is an empty batch)
+        self.previous_value = np.take(self.value, -1).astype(float) if np.size(self.value) else nan
 '''
 mut("c12_prev_before_defuzz", "C12", "variable.py", _DEFUZZ_CALL, '''        # previous value is the last element of the value at t
-        self.previous_value = np.take(self.value, -1).astype(float)
+        self.previous_value = np.take(self.value, -1).astype(float) if np.size(self.value) else nan
         value = np.array(self.defuzzifier.defuzzify(self.fuzzy, self.minimum, self.maximum))
 ''', "previous_value overwritten before a defuzzifier that may raise (fault-only detectable)")
-mut("c12_prev_from_first", "C12", "variable.py", "self.previous_value = np.take(self.value, -1).astype(float)",
-    "self.previous_value = np.take(self.value, 0).astype(float)", "previous value from the first row of the last batch")
+mut("c12_prev_from_first", "C12", "variable.py", "self.previous_value = np.take(self.value, -1).astype(float) if",
+    "self.previous_value = np.take(self.value, 0).astype(float) if", "previous value from the first row of the last batch")
 mut("c12_commit_no_clip", "C12", "variable.py", '''        # Committing the value
         self.value = value
 ''', '''        # Committing the value
@@ -340,6 +340,17 @@ mut("d4_revert_output_values", "C02", "engine.py", "        result = np.column_s
     "        result = np.column_stack(values) if values else np.array(values)\n        return result\n\n    @property\n    def values(self)", "defect D4 as found at the pinned commit")
 mut("d7_revert_hedge_pow", "C02", "hedge.py", "        y = np.where(x <= 0.5, 2 * np.square(x), 1 - 2 * np.square(1 - x))",
     "        y = np.where(x <= 0.5, 2 * x**2, 1 - 2 * (1 - x) ** 2)",
-    "defect D7 (Extremely only) as found at the pinned commit: a needle (about one quick run in three shows it), expected to be caught by the thorough tier or a seed sweep rather than by every quick run", needle=8)
+    "defect D7 (Extremely only) as found at the pinned commit: a needle (about one quick run in three shows it), expected to be caught by the thorough tier or a seed sweep rather than by every quick run (measured after round 10: 1 quick seed in 12 to 24)", needle=30)
 mut("d8_revert_function_scalar", "C02", "term.py", '        engine_variables["x"] = scalar(x)\n', '        engine_variables["x"] = x\n',
     "defect D8 (the x argument only) as found at the pinned commit")
+mut("c20_debugging_global_logger", "C20", "library.py", "        return self.logger.level == logging.DEBUG\n",
+    '        return logging.getLogger("fuzzylite").level == logging.DEBUG\n',
+    "debug mode read from the default logger instead of the logger in force (a context that swaps the logger is not observed)")
+mut("c20_consequent_standard_hedges", "C20", "rule.py",
+    "                factory = settings.factory_manager.hedge\n                if token in factory:\n                    hedge = factory.construct(token)\n"
+    "                    proposition.hedges.append(hedge)  # type: ignore\n                    state = s_hedge | s_term\n",
+    "                from .factory import HedgeFactory\n\n                factory = HedgeFactory()\n                if token in factory:\n                    hedge = factory.construct(token)\n"
+    "                    proposition.hedges.append(hedge)  # type: ignore\n                    state = s_hedge | s_term\n",
+    "consequent hedges looked up in a fresh standard factory instead of the factory manager in force")
+mut("d9_revert_empty_batch", "C13", "variable.py", "        self.previous_value = np.take(self.value, -1).astype(float) if np.size(self.value) else nan\n",
+    "        self.previous_value = np.take(self.value, -1).astype(float)\n", "defect D9 as found at the pinned commit")
